@@ -28,10 +28,11 @@ type faultScanner struct {
 	off       int
 	lastSize  int
 	delivered bool // the failure has been returned at least once
+	once      bool // the failure is transient: returned once, then the source goes on
 }
 
 func (f *faultScanner) ReadRune() (rune, int, error) {
-	if f.n >= f.k {
+	if f.n >= f.k && !(f.once && f.delivered) {
 		f.delivered = true
 		f.lastSize = 0
 		return 0, 0, errSource
@@ -64,15 +65,16 @@ type faultReader struct {
 	k         int
 	off       int
 	delivered bool
+	once      bool
 }
 
 func (f *faultReader) Read(p []byte) (int, error) {
-	if f.off >= f.k {
+	if f.off >= f.k && !(f.once && f.delivered) {
 		f.delivered = true
 		return 0, errSource
 	}
 	end := f.k
-	if end > len(f.s) {
+	if end > len(f.s) || f.delivered {
 		end = len(f.s)
 	}
 	if f.off >= end {
@@ -87,6 +89,9 @@ type c10Case struct {
 	Src    string `json:"src"`
 	K      int    `json:"k"`      // runes (scanner) or bytes (reader) delivered before the failure
 	Reader string `json:"reader"` // "scanner" or "reader"
+	// Once: the failure is transient (returned by one call; later calls
+	// deliver the rest of the source).
+	Once bool `json:"once,omitempty"`
 }
 
 // checkC10 returns whether the fault was delivered.
@@ -94,10 +99,10 @@ func checkC10(c c10Case) (bool, error) {
 	var src interface{}
 	var delivered func() bool
 	if c.Reader == "reader" {
-		fr := &faultReader{s: c.Src, k: c.K}
+		fr := &faultReader{s: c.Src, k: c.K, once: c.Once}
 		src, delivered = fr, func() bool { return fr.delivered }
 	} else {
-		fs := &faultScanner{s: c.Src, k: c.K}
+		fs := &faultScanner{s: c.Src, k: c.K, once: c.Once}
 		src, delivered = fs, func() bool { return fs.delivered }
 	}
 	type res struct {
@@ -117,6 +122,9 @@ func checkC10(c c10Case) (bool, error) {
 	}
 	if !delivered() {
 		return false, nil
+	}
+	if c.Once {
+		c.Reader += " (one transient failure)"
 	}
 	if r.err == nil {
 		return true, fmt.Errorf("the %s failed after %d units of %q, but ParseCommands returned a nil error (%d commands)", c.Reader, c.K, c.Src, len(r.cmds))
@@ -174,6 +182,17 @@ func TestC10(t *testing.T) {
 				jr.end()
 				if err != nil {
 					fail(tt, "C10", "fault", c, "%v", err)
+				}
+				if delivered {
+					// the same position with a failure that goes away again
+					c.Once = true
+					jr.begin("C10", "fault", c)
+					_, err := checkC10(c)
+					jr.end()
+					if err != nil {
+						fail(tt, "C10", "fault", c, "%v", err)
+					}
+					st.Class("transient_fault_delivered_" + reader)
 				}
 				if !delivered {
 					st.EvalN(1, 0)
